@@ -119,7 +119,7 @@ Theorem C09_handle_refines : forall ops s,
 Proof. exact (handle_refines sort_pnames_fixed). Qed.
 Print Assumptions C09_handle_refines.
 
-(* a FAILED write_row_groups whose handle is put back (repo fix 006048a): summary, num_rows and the handle are as before *)
+(* a FAILED write_row_groups whose handle is put back (repo fix 8453df6): summary, num_rows and the handle are as before *)
 Theorem C09_failed_op_restored : forall s done,
   let sh' := fail_write false (s, open_h s) done in
   coherent sh' /\ st_sum (fst sh') = st_sum s /\ st_num (fst sh') = st_num s.
@@ -135,7 +135,7 @@ Theorem C09_stale_handle_refuted :
 Proof. exact stale_handle_refuted. Qed.
 Print Assumptions C09_stale_handle_refuted.
 
-(* faulty rule 2 (pinned behaviour before fix 006048a): the row groups a FAILED write_row_groups had finished stay in the
+(* faulty rule 2 (pinned behaviour before fix 8453df6): the row groups a FAILED write_row_groups had finished stay in the
    handle - the dataset reads as before after the failure, and the next successful append publishes the failed rows *)
 Theorem C09_failed_op_kept_refuted :
   let sh1 := fail_write true (w_s0, open_h w_s0) [[(w_dir, [10; 11]%N)]] in
